@@ -169,7 +169,7 @@ def part_a(ctx, strings, tmp):
         if g != s:
             ctx.violation("quote-roundtrip-broken", "bash reads quote(%r) = %r back as %r" % (s, q, g), {"kind": "quote", "s": s})
     # ---- bash_word model vs real bash: all quoted strings + raw fuzz
-    n_fuzz = ctx.n(1200, 60000)
+    n_fuzz = ctx.n(1200, 30000)
     words = list(quoted)
     words += [":".join(impl_quote(s) for s in rng.sample(strings, min(len(strings), rng.randint(1, 3)))) + rng.choice(["", ":$PATH", "$PATH"])
               for _ in range(ctx.n(300, 5000))]
@@ -581,7 +581,7 @@ def part_b(ctx, tmp):
     t0 = _time.time()
     projdir = os.path.join(tmp, "pr oj'$x")
     os.makedirs(projdir)
-    n = ctx.n(100, 6000)
+    n = ctx.n(100, 3000)
     jobs = [gen_spec_job(rng, projdir, i) for i in range(n)]
     for f in sorted(glob.glob(os.path.join(core.VERIF, "corpus", "C13", "spec_*.json"))):
         c = json.load(open(f))
@@ -589,6 +589,9 @@ def part_b(ctx, tmp):
         j["dir"] = projdir
         j["id"] = "corpus:" + os.path.basename(f)
         j["spec"]["mainScript"] = DUMP_MAIN
+        cw = "ws/corpus-%s" % os.path.basename(f)[:-5]              # own workspace: jobs run in parallel workers
+        j["spec"]["workspace"] = [cw + "/workspace", cw + "/workspace"]
+        j["spec"]["scriptHint"] = cw + "/script"
         jobs.insert(0, j)
         ctx.count("spec:corpus")
     res = run_workers(tmp, jobs, nworkers=NPAR)
@@ -730,7 +733,7 @@ def part_d(ctx, tmp):
     rng = ctx.rng
     t0 = _time.time()
     kinds = ["slim", "fat-stable", "fat-dev", "strict"]
-    n = ctx.n(8, 120)
+    n = ctx.n(8, 96)
     jobs = [gen_sandbox_job(rng, tmp, i, kinds[i % 4]) for i in range(n)]
     res = run_workers(tmp, jobs, nworkers=NPAR)
     t0 = tick(ctx, "d:invoke", t0)
@@ -1053,8 +1056,8 @@ def part_c(ctx, tmp):
     rng = ctx.rng
     t0 = _time.time()
     runs = []
-    n_plain = ctx.n(2, 40)
-    n_sb = ctx.n(1, 8)
+    n_plain = ctx.n(2, 30)
+    n_sb = ctx.n(1, 6)
     for i in range(n_plain):
         runs.append(("plain", [], rng.choice([[], ["-e", "WLC"], ["-E"], ["-e", "WLC", "-e", "SECRET-DASH"]]) if i != 1 else ["-E"]))
     for i in range(n_sb):
@@ -1396,7 +1399,7 @@ def run(ctx):
         if ctx.replay:
             return replay(ctx, tmp)
         if "a" in parts:
-            strings = HOSTILE_VALUES + [gen_value(ctx.rng) for _ in range(ctx.n(800, 30000))]
+            strings = HOSTILE_VALUES + [gen_value(ctx.rng) for _ in range(ctx.n(800, 15000))]
             part_a(ctx, strings, tmp)
         if "b" in parts:
             part_b(ctx, tmp)
